@@ -680,11 +680,14 @@ func (sd *SpecAnalyser) compareSchema(location DifferenceLocation, schema1, sche
 	}
 
 	if isRefType(schema1) {
-		key := schemaLocationKey(location)
+		// guard against circular references: do not descend again into a
+		// definition that is being compared further up the call stack
+		key := definitionFromRef(getRef(schema1))
 		if _, ok := sd.schemasCompared[key]; ok {
 			return
 		}
 		sd.schemasCompared[key] = struct{}{}
+		defer delete(sd.schemasCompared, key)
 		schema1, _ = sd.schemaFromRef(getRef(schema1), &sd.Definitions1)
 	}
 
